@@ -43,6 +43,17 @@ func evalWith(text string, data map[string]interface{}) obs.EvalOut {
 	return obs.EvalText(text, data)
 }
 
+// evalWithFresh evaluates once on a new runner with the given map (formulas that assign locals).
+func evalWithFresh(text string, data map[string]interface{}) obs.EvalOut {
+	p := obs.Parse([]byte(text))
+	if !p.OK() {
+		return obs.EvalOut{Err: fmt.Errorf("parse: %v", p.Err)}
+	}
+	r := formula.NewRunner()
+	r.SetThis(data)
+	return obs.Eval(r, context.Background(), p.Src.Expression)
+}
+
 // fieldsOf computes the civil fields of instant (sec since epoch) at UTC offset off.
 func fieldsOf(sec int64, off int64) (y, mo, d, hh, mi, ss, wd int64) {
 	local := sec + off
@@ -148,6 +159,19 @@ func checkInstant(c dateCase) string {
 	if m := wantFields(arr, [7]int64{y, mo, d, hh, mi, ss, w}, what); m != "" {
 		return m
 	}
+	// a time keeps its zone and instant when it is bound to a local and read back (same runner, later evaluation too)
+	{
+		r := formula.NewRunner()
+		r.SetThis(map[string]interface{}{"t": t0})
+		o1 := obs.Eval(r, context.Background(), obs.Parse([]byte("$k = t, "+subst(fieldsExpr, "$k"))).Src.Expression)
+		o2 := obs.Eval(r, context.Background(), obs.Parse([]byte(subst(fieldsExpr, "$k"))).Src.Expression)
+		direct := fmt.Sprint(obs.Show(arr))
+		for i, o := range []obs.EvalOut{o1, o2} {
+			if o.Panic != nil || o.Err != nil || obs.Show(o.Val) != direct {
+				return fmt.Sprintf("the fields of %s read directly are %s, but through a local ($k = t, evaluation %d) %s", what, direct, i+1, o)
+			}
+		}
+	}
 	wantMs := c.Sec*1000 + c.Nsec/1000000
 	if g, ok := obs.Int(arr[7]); !ok || g != wantMs {
 		return fmt.Sprintf("millSecond(%s) = %s, want %d", what, obs.Show(arr[7]), wantMs)
@@ -195,6 +219,11 @@ func checkInstant(c dateCase) string {
 			arr, em := evalArr(fmt.Sprintf("[millSecond(useTimezone(t, '%s')), hour(useTimezone(t, '%s')), minute(useTimezone(t, '%s')), day(useTimezone(t, '%s'))]", c.To, c.To, c.To, c.To), data)
 			if em != "" {
 				return em
+			}
+			// the converted time bound to a local is the same converted time
+			lo := evalWithFresh(fmt.Sprintf("$z = useTimezone(t, '%s'), [millSecond($z), hour($z), minute($z), day($z)]", c.To), map[string]interface{}{"t": t0})
+			if lo.Panic != nil || lo.Err != nil || obs.Show(lo.Val) != obs.Show(arr) {
+				return fmt.Sprintf("[millSecond, hour, minute, day] of useTimezone(%s, %q) are %s directly, but %s through a local", what, c.To, obs.Show(arr), lo)
 			}
 			if g, ok := obs.Int(arr[0]); !ok || g != wantMs {
 				return fmt.Sprintf("millSecond(useTimezone(%s, %q)) = %s, want %d (same instant)", what, c.To, obs.Show(arr[0]), wantMs)
